@@ -37,6 +37,7 @@ def run_config(ctx, config):
             want = ("app", "HasRefUnit::" + fn, q.path, (a_, b_))
             opforms.body_form(ctx, "forwarder", inst, U, imp, fn, want)
             n += 1
+        opforms.assign_ops(ctx, "assign-through-operator", config, w, q)
     ctx.floor("%s: Add/Sub/Div<Self> forwarders" % config, n, 3 * (23 if config == "f64-all" else 19))
     ov = G.overrides(ctx, "override", U, model.T_HRU, {"REF_UNIT"}, "HasRefUnit")
     for tk, (extra, imp) in ov.items():
@@ -76,6 +77,9 @@ def decimal_accuracy(ctx, config):
                         if t[0] == "app" and t[1] == "Quantity::new":
                             t = t[3][0]
                         rel, err = A.worst(A.analyse_poly(t, {sa: su, sb: sv}, amounts))
+                    except A.Overflow as x:
+                        ctx.ob("decimal-accuracy", inst, False, "%s of %s with units (%s, %s) panics in the decimal back-end for every amount: %s" % (fn, q.path, u, v, x), b["span"], nontrivial=False)
+                        continue
                     except A.Unsupported as x:
                         ctx.fail("decimal-accuracy", inst, "cannot analyse the term: %s" % x, b["span"])
                         continue
